@@ -143,7 +143,7 @@ def run(ctx):
     ctx.assumptions = ['the syscall trace covers open/write/pwrite/ftruncate/fallocate/fsync of the gcc-built tools (mmap is not used by e2fsprogs for device I/O); the sha256 comparison is independent of the trace',
                        'modifying debugfs commands are issued without -w and must be refused; whatever the tool prints or exits with is not judged here, only the target bytes']
     tool.replay_tier(ctx, body, envinit)
-    n = int((150 if ctx.tier == 'quick' else 8000) * ctx.scale)
+    n = int((150 if ctx.tier == 'quick' else 1500) * ctx.scale)
     hyp.run_property(ctx, strategy, body, envinit, n)
 
 def replay_file(ctx, path): return tool.replay_file(ctx, path, body, envinit)
